@@ -12,7 +12,7 @@ import os
 import subprocess
 import sys
 
-from .. import common, parsing, render, prog, progrun
+from .. import common, parsing, render, prog, progrun, clicorr
 from ..progrun import Scenario, Name
 from . import c12
 
@@ -217,7 +217,7 @@ def runtime_lines(ctx):
             ctx.fail("%s carries line %s; the offending command/argument is on line %r" % (err, parts[2], lines), {"source": src})
 
 
-def cli_marks(ctx, count):
+def cli_marks(ctx, count, model=None):
     """the command-line tool, run in-process on files with a fault at a known line: the line it marks with `-->` is that line of the file, also when
     comment lines and quoted strings above it hold characters that some text utilities treat as line breaks (form feed, vertical tab, file/group/
     record separators, NEL, U+2028/2029), with LF or CRLF line ends and with multi-line quoted strings"""
@@ -232,6 +232,7 @@ def cli_marks(ctx, count):
         runner = CliRunner(mix_stderr=False)
     except TypeError:
         runner = CliRunner()
+    seen = []
     for i in range(count):
         nl = rng.choice(["\n", "\n", "\r\n"])
         lines = []
@@ -268,6 +269,10 @@ def cli_marks(ctx, count):
             err_text = res.stderr
         except ValueError:
             err_text = res.output
+        if model is not None:
+            # the tool's output for this file against the model's rendering of what the real loader raises for it (Model/Cli)
+            crash = "-" if res.exception is None or isinstance(res.exception, SystemExit) else type(res.exception).__name__
+            clicorr.real_faults(ctx, model, [(text, path, "eems-csv", (res.exit_code, err_text or "", crash))])
         ctx.case("cli-mark " + text, sample={"file": text[:300], "exit": res.exit_code})
         ctx.count("cli_mark_cases")
         desc = {"command_file": text, "true_line": true_line, "stderr": (err_text or "")[-500:], "exit": res.exit_code}
@@ -292,7 +297,7 @@ def cli_marks(ctx, count):
 
 
 def run(ctx):
-    ctx.check_proofs(["MPilot.Props.C11"])
+    ctx.check_proofs(["MPilot.Props.C11", "MPilot.Props.C13Cli"])
     model = common.Model()
     rng = ctx.rng
     # (a) node lines of renderings (real vs true lines vs model)
@@ -314,7 +319,8 @@ def run(ctx):
     fault_lines(ctx, model)
     cycle_lines(ctx)
     runtime_lines(ctx)
-    cli_marks(ctx, ctx.budget(30, 600))
+    cli_marks(ctx, ctx.budget(30, 600), model)
+    clicorr.formatting(ctx, model, ctx.budget(60, 3000))
     # files in EEMS 2.0 syntax (arguments on their own lines): faults carry the line of the command, as in MPilot syntax
     from . import c12
     tmp2 = common.tmpdir("mpv_c11e_")
